@@ -9,6 +9,7 @@ CONSTANTS
   BinOps = {}
   BinMods = {}
   Offsets <- OffFew
+  BadOffsets = {"NaN", "Inf", "1e10"}
   AtMods <- AtFew
   Exts = {"anchored", "smoothed"}
   Ranges = {300000}
